@@ -31,6 +31,7 @@ structure PUD where
   want : Mode := 0
   given : Mode := 0
   deleted : Bool := false
+  isChan : Bool := false            -- a channel reader (cached only while attached)
   deriving DecidableEq, Repr
 
 /-- subscription row of the store -/
@@ -74,6 +75,8 @@ structure TopicRow where
   subs : List SubRow := []          -- in creation order
   msgs : List MsgRow := []          -- ascending seq
   dellog : List DelRow := []        -- in creation order
+  chan : Bool := false              -- channel-enabled (types.Topic.UseBt)
+  csubs : List SubRow := []         -- subscriptions of channel readers: rows stored under the `chn` spelling of the name
   deriving DecidableEq, Repr, Inhabited
 
 /-- a loaded topic: the actor's cache (Topic, topic.go:24-127) -/
@@ -94,6 +97,8 @@ structure Topic where
   readOnly : Bool := false
   loaded : Bool := false                    -- topicStatusLoaded: "online" announced
   hasSupd : Bool := true                    -- Topic.supd exists: created by initTopicGrp (load) and initTopicNewGrp
+  isChan : Bool := false                    -- channel-enabled group topic
+  chanSess : List Sid := []                 -- the attached sessions which are attached as channel readers (perSessionData.isChanSub)
   deriving DecidableEq, Repr, Inhabited
 
 structure User where
